@@ -22,14 +22,17 @@ PURPOSE = {"C02": "c02", "C06": "c06", "C03": "c03", "C13": "c13", "C16": "c16"}
 
 
 def tiers_for(pid, tier):
+    # "simd" (-mavx2 -mavx512f -mf16c) compiles the vectorised paths of varintFOR.c / varintBP128.c that the
+    # default build (and the repository's tests) never compile; it is part of the quick tier for that reason
     if tier == "quick":
-        return ["pinned", "debug"] if pid in ("C02", "C06") else ["pinned"]
+        return ["pinned", "debug", "simd"] if pid in ("C02", "C06") else ["pinned", "simd"]
     return ["pinned", "debug", "simd"]
 
 
 def prebuild():
     vlib.build_driver("drv_codecs", "pinned", LIB, **BUILD)
     vlib.build_driver("drv_codecs", "debug", LIB, **BUILD)
+    vlib.build_driver("drv_codecs", "simd", LIB, **BUILD)
 
 
 def scenarios(work, tier, purpose, model):
